@@ -2535,10 +2535,12 @@ int string_case_compare (parse_node_t ** c1, parse_node_t ** c2) {
   if ((*c2)->kind == NODE_DEFAULT)
     return 1;
 
+  /* "case 0:" is a NODE_CASE_NUMBER; string number 0 (the name of the file)
+   * is a string like every other */
   i1 = (*c1)->r.number;
   i2 = (*c2)->r.number;
-  p1 = (i1 ? PROG_STRING (i1) : 0);
-  p2 = (i2 ? PROG_STRING (i2) : 0);
+  p1 = ((*c1)->kind == NODE_CASE_STRING ? PROG_STRING (i1) : 0);
+  p2 = ((*c2)->kind == NODE_CASE_STRING ? PROG_STRING (i2) : 0);
 
   /* f_switch() compares the full addresses (and 0, for "case 0:", is the lowest):
    * the difference of two addresses does not fit an int */
